@@ -18,7 +18,7 @@ Import ListNotations.
 
 Inductive bstatus := BReady | BPending | BWasted | BErr.     (* Result<TrackStatus> of TrackAttributes::baked *)
 
-Fixpoint set_nth {A} (k : nat) (x : A) (l : list A) : list A :=
+Fixpoint set_nth {A} (k : nat) (x : A) (l : list A) {struct l} : list A :=
   match l, k with
   | [], _ => []
   | _ :: r, O => x :: r
@@ -263,7 +263,9 @@ Section Store.
   (* let t = store.new_track(id).observation(..)*.build()?; store.add_track(t) *)
   | XBuildAdd (id : N) (l : list obs_spec)
   (* let t = store.new_track(id).observation(..)*.build()?; store.merge_external[_noblock](dst, t, cls, mh) *)
+  (* [order]: ghost, the hash-map iteration order of the classes of the freshly built source *)
   | XMergeBuilt (noblock : bool) (dst id : N) (l : list obs_spec) (cls : option (list N)) (mh : bool)
+                (order : list N)
   (* ghost step: fixes the (unspecified) hash-map iteration order of the classes of a stored track *)
   | XReorder (id : N) (order : list N).
 
@@ -282,11 +284,12 @@ Section Store.
         | Err e => (w1, XBuildErr e, st, n)
         | Ok t => let '(w2, r2, st2, n2) := sstep w1 st (AddTrack t) in (w2, XR r2, st2, (n + n2)%nat)
         end
-    | XMergeBuilt noblock dst id l cls mh =>
+    | XMergeBuilt noblock dst id l cls mh order =>
         let '(w1, r, n) := build w id dflt_metric dflt_attrs l in
         match r with
         | Err e => (w1, XBuildErr e, st, n)
-        | Ok t =>
+        | Ok t0 =>
+            let t := set_obs t0 (reorder_obs order (obs t0)) in
             let '(w2, r2, st2, n2) :=
               sstep w1 st (if noblock then MergeExtNoblock dst t cls mh else MergeExt dst t cls mh) in
             (w2, XR r2, st2, (n + n2)%nat)
@@ -458,7 +461,7 @@ Module Alg.
   (* a store script: number of shards, fail plan, operations; prints result, notifications and ALL shards
      after every operation *)
   Definition run_store (n : nat) (w : W) (ops : list (xop TA UPD OA FT MS LQ)) :=
-    map (fun s => let '(r, k, st) := s in (dump_xres r, N.of_nat k, map (map (fun p => dump_track (snd p))) st))
+    map (fun s => let '(r, k, st) := s in (dump_xres r, N.of_nat k, map (map (fun p => (fst p, dump_track (snd p)))) st))
         (xrun TA UPD OA FT MS W LQ apply amerge optimize baked lookup dflt_metric dflt_attrs
               w (empty_store TA OA FT MS n) ops).
 
